@@ -9,6 +9,7 @@ import (
 	"testing"
 
 	an "github.com/benoitkugler/gomacro/analysis"
+	ansql "github.com/benoitkugler/gomacro/analysis/sql"
 	gen "github.com/benoitkugler/gomacro/generator"
 )
 
@@ -37,6 +38,7 @@ type IdItemBis int64
 // gomacro:SQL _SELECT KEY (Kind)
 // gomacro:SQL CREATE INDEX ItemBis_idx ON Item (Kind)
 // gomacro:QUERY SetKind UPDATE Item SET Kind = $k$ WHERE Id = $id$ AND Kind = $k$
+// gomacro:QUERY Twice UPDATE Item SET Name = $n$ WHERE Name = $n$ AND Kind = $kind$ AND Id = $id$
 type Item struct {
 	Id    IdItem
 	Kind  K
@@ -84,4 +86,15 @@ func TestGovcHarness_Directives(t *testing.T) {
 	expect("whole-word table names replaced, other words kept", strings.Contains(out, "CREATE INDEX ItemBis_idx ON items (Kind);"))
 	expect("select keys never reach the SQL output", !strings.Contains(out, "_SELECT"))
 	expect("queries never reach the SQL output", !strings.Contains(out, "SetKind"))
+	// custom queries: placeholders numbered by first occurrence, equal names sharing a number, one input per name
+	for _, ta := range ansql.SelectTables(ana) {
+		for _, q := range ta.CustomQueries {
+			switch q.GoFunctionName {
+			case "SetKind":
+				expect("SetKind: $k$ -> $1 (twice), $id$ -> $2: "+q.Query, q.Query == "UPDATE Item SET Kind = $1 WHERE Id = $2 AND Kind = $1" && len(q.Inputs) == 2 && q.Inputs[0].VarName == "k" && q.Inputs[1].VarName == "id")
+			case "Twice":
+				expect("Twice: a repeated name before new ones: $n$ -> $1 (twice), $kind$ -> $2, $id$ -> $3: "+q.Query, q.Query == "UPDATE Item SET Name = $1 WHERE Name = $1 AND Kind = $2 AND Id = $3" && len(q.Inputs) == 3 && q.Inputs[1].VarName == "kind" && q.Inputs[2].VarName == "id")
+			}
+		}
+	}
 }
